@@ -394,7 +394,8 @@ func (x *Exec) execInstr(fr *Frame, n *Node, st *State, in ssa.Instruction) *Nod
 	case *ssa.Store:
 		if fa, ok := in.Addr.(*ssa.FieldAddr); ok && fr.depth == 0 && fr.contract != nil && len(fr.contract.Asserts) > 0 {
 			if si := x.ss.structInfoOf(deref(fa.X.Type())); si != nil {
-				x.atAsserts(fr, n, st, "store", []string{si.fields[fa.Field].name}, in)
+				// arg0 = the value being stored
+				x.atAsserts(fr, n, st, "store", []string{si.fields[fa.Field].name}, in, x.val(fr, n, st, in.Val))
 			}
 		}
 		v := x.val(fr, n, st, in.Val)
